@@ -39,7 +39,9 @@ ASSUMPTIONS = COMMON_ASSUMPTIONS + [
 
 GARBAGE = ["\x00", "퟿", "é", "💥", "\\", '"', '"""', "#", "...", "$", "@", "!", "{", "}", "(", ")", "[", "]", ":", "=", "|", "&",
            "0x1F", "1e", "-", ".5", "'", "\t", "\r", "﻿", " ", "query", "fragment", "on", "null", "true", "mutation", "subscription",
-           "type Foo { a: Int }", "__schema", "__typename"]
+           "type Foo { a: Int }", "__schema", "__typename",
+           # lone surrogates (half of an emoji cut by a client): a str that cannot be encoded
+           "\ud83c", "\udc00", "# \ud800\n", '"\ud83c"']
 
 
 def tokens_of(text):
